@@ -40,7 +40,7 @@ def _items(r, depth: int, avail: list, in_block: bool, root: bool, tag: str) -> 
 
 @st.composite
 def cases(draw):
-    r = draw(st.randoms(use_true_random=False))
+    r = core.rng(draw)
     n = r.choice([1, 2, 2, 3, 3, 4])
     chain = []
     for lvl in range(n):
@@ -48,27 +48,25 @@ def cases(draw):
         avail = r.sample(BLOCKS, r.randint(1, 4))
         t = {"pre": r.choice(["", "PRE", "p "]) if lvl == 0 and n > 1 else "", "items": _items(r, 2, avail, False, is_root, f"{lvl}")}
         chain.append(t)
-    fault = None
-    c = r.random()
-    if c < 0.06 and n > 1:
-        fault = "cycle"
-    elif c < 0.12:
-        fault = "duplicate"
+    fault = r.choice([None] * 14 + ["cycle", "duplicate", "duplicate", "endblock", "endblock", "matching"])
+    if fault == "cycle" and n == 1:
+        fault = None
+    if fault == "duplicate":
         t = r.choice(chain)
         bs = R.blocks_of(t["items"])
         if bs:
             t["items"].append(["block", bs[0][1], False, [["text", "dup"]]])
         else:
             fault = None
-    elif c < 0.17:
-        fault = "endblock"
+    elif fault == "endblock":
         t = r.choice(chain)
         bs = R.blocks_of(t["items"])
         if bs:
             bs[0].append("zz" if bs[0][1] != "zz" else "yy")
         else:
             fault = None
-    elif c < 0.22:
+    elif fault == "matching":
+        fault = None
         # matching endblock names are fine
         for t in chain:
             for b in R.blocks_of(t["items"]):
@@ -93,6 +91,13 @@ def evaluate(case) -> Verdict:
         if fault == "cycle" or mismatched:
             raise R.Inheritance(fault or "endblock")
         want = ("ok", R.flatten(chain, DATA))
+    except R.Recursive:
+        # mutually containing blocks: any Liquid error is acceptable, a crash or a hang is not
+        got = oc.short(o)
+        if got[0] != "liquid":
+            v.fail("recursive-blocks", f"sources={sources!r:.500} -> {got!r:.200}, expected a Liquid error")
+        v.labels.append("recursive-blocks")
+        return v
     except R.Required:
         want = ("liquid", "RequiredBlockError")
     except R.Inheritance:
